@@ -17,7 +17,9 @@ Stage "pump" (one evaluation = one fresh environment):
           (every response flow x 8 waiter kinds x {ignore, take_later1, handled})
   addon behaviours  ignore | take | take+resume inside the hook | take, resume after 1 / 2 further pumps | resume twice inside
           the hook | take, resume later, resume again | inject a response | rewrite the URL | clear can_stream | return True |
-          resume then preempt later | preempt before any resume | take, then the flow's region is dropped from the session /
+          resume then (inject a response +) preempt later | take+resume in the hook, preempt one pump later | take, resume
+          one pump later, preempt another pump later (the preempt item must exist once and carry the injected response) |
+          preempt before any resume | take, then the flow's region is dropped from the session /
           its session is closed (and garbage-collected), then resume (all flows; x single faults on the plain/valid flows)
   enumerated: all flows x all single faults x all behaviours of addon1; then all pairs of faults, and all pairs of behaviours
   (addon1 x addon2) -- on every flow in the thorough tier, on the plain/valid flows in the quick tier; thorough adds
@@ -43,6 +45,11 @@ Stage "wrapper": requests to GetMesh2 / GetTexture / ViewerAsset ``...ProxyWrapp
   asset-server request switched the manager to the URL-rewrite strategy} x can_stream {kept, cleared by either addon} x
   {addon1, addon2 rewrites} x {path+query rewritten on the wrapper host, whole URL rewritten}: whichever form the hand-back
   takes (injected 307 Location / rewritten request URL), it carries the addon's path and query on the original cap's host.
+Stage "mirror": {request, response hook} x cap kinds x {copy + replay, copy only}: the hook copies the intercepted flow and asks the
+  proxy to replay the retargeted copy while the original is still intercepted (addon_examples/message_mirror.py); the real
+  ``_pump_callbacks`` coroutine consumes the to-proxy queue (only mitmproxy's ``replay.client`` command is stubbed), the main
+  side pumps whatever comes back.  Every flow object the proxy side intercepted is resumed exactly once per interception,
+  none is left intercepted, and a copy has a fresh id.
 Stage "proxy": every sequence of <= 3 (thorough 4) queue items over {callback, preempt} x {known id, unknown id, state whose
   set_state raises} + unknown event type + replay, fed to the real ``_pump_callbacks``: each callback/preempt item for a known
   flow calls that flow's resume() exactly once, nothing else is resumed.
@@ -86,11 +93,14 @@ BEHAVIOURS = ("ignore", "take", "take_resume", "take_later1", "take_later2", "re
               "rewrite", "nostream", "handled", "resume_preempt", "preempt_early")
 #: take(), then the owning region is dropped from the session / the owning session is closed (and collected), then resume()
 OWNER_LOSS = ("take_drop_region", "take_close_session")
+#: preempt() of a flow that had been taken and released again (in the hook / one pump later)
+PREEMPT_AFTER_TAKE = ("take_resume_preempt", "take_later_preempt")
 FAULTS = ("a1_raise_sw", "a1_raise_prop", "a2_raise_sw", "a2_raise_prop", "sess_sub", "reg_sub", "logger", "asset_repo",
           "resolve", "sess_sub_take", "reg_sub_take")
 ASSET_URL = "http://assets.test/mesh"
 LOGIN_URL = "https://login.test/cgi-bin/login.cgi"
 REWRITTEN = "http://rewritten.test:8080/new/path?y=2"
+MIRROR_URL = "http://mirror.test:8081/mirrored/path"
 REWRITTEN_PQ = "/rewritten/item?texture_id=00000000-0000-0000-0000-00000000beef&x=1"
 WRAPPED_CAPS = {"GetMesh2": ASSET_URL, "GetTexture": "http://assets.test/texture", "ViewerAsset": "http://asset-cdn.test:8080/asset"}
 INJ_STATUS, INJ_BODY, INJ_HEADERS = 203, b"injected by addon", {"X-Inj": "1", "Content-Type": "text/x-test"}
@@ -116,6 +126,8 @@ class ScriptedAddon:
         self.released = False
         self.called = 0
         self.log: List[str] = []
+        self.copies: List[Tuple[str, str]] = []
+        self.sm = None
         self.observe = False        # two-phase stage only: keeps (strong) references to what the hooks saw
         self.seen_caps: Dict[Tuple[str, str], Any] = {}
         self.seen_plain: Optional[Tuple[Any, Any, Any]] = None     # (cap name, type name, base url) at hook time, no references
@@ -124,9 +136,11 @@ class ScriptedAddon:
         self.target, self.beh, self.raise_after = (fid, event), beh, raise_after
 
     def handle_http_request(self, session_manager, flow):
+        self.sm = session_manager
         return self._hook("request", flow)
 
     def handle_http_response(self, session_manager, flow):
+        self.sm = session_manager
         return self._hook("response", flow)
 
     def _take(self, flow):
@@ -155,16 +169,16 @@ class ScriptedAddon:
         if self.observe:
             self.seen_caps[(flow.id, event)] = (cd.cap_name, cd.type, cd.base_url, cd.session and cd.session(),
                                                 cd.region and cd.region()) if cd is not None else None
-        if self.target != (flow.id, event):
+        if self.target != (flow.id, event) or flow.metadata.get("mirrored"):
             return None
         self.called += 1
         self.seen_plain = (cd.cap_name, cd.type.name, cd.base_url) if cd is not None else None
         ret = None
         b = self.beh
         try:
-            if b in ("take", "take_later1", "take_later2", "take_later_twice") + OWNER_LOSS:
+            if b in ("take", "take_later1", "take_later2", "take_later_twice", "take_later_preempt") + OWNER_LOSS:
                 self._take(flow)
-            elif b == "take_resume":
+            elif b in ("take_resume", "take_resume_preempt"):
                 self._take(flow)
                 self._resume(flow)
             elif b == "resume_twice":
@@ -182,6 +196,18 @@ class ScriptedAddon:
                 flow.request.url = REWRITTEN
                 self.log.append("rewrote")
                 self.board.append((self.name, "rewrote"))
+            elif b in ("copy_replay", "copy_only"):
+                # what addon_examples/message_mirror.py does: copy the flow, retarget the copy, ask the proxy to replay it
+                dup = flow.copy()
+                self.copies.append((flow.id, dup.id))
+                self.log.append("copied")
+                if b == "copy_replay":
+                    dup.metadata["mirrored"] = True
+                    dup.request.url = MIRROR_URL
+                    dup.metadata.pop("cap_data_ser", None)
+                    dup.metadata.pop("cap_data", None)
+                    self.sm.flow_context.to_proxy_queue.put_nowait(("replay", None, dup.get_state()))
+                    self.log.append("replayed")
             elif b == "rewrite_pq":
                 flow.request.path = REWRITTEN_PQ            # same (wrapper) host, new path and query
                 self.log.append("rewrote-pq")
@@ -225,6 +251,8 @@ class ScriptedAddon:
             self.log.append(f"resume-raised:{type(e).__name__}")
 
     def preempt(self):
+        """The documented use: the addon races the server's answer -- it injects its own response and preempts."""
+        self.held.response = Response.make(INJ_STATUS, INJ_BODY, dict(INJ_HEADERS))
         try:
             self.held.preempt()
             self.log.append("preempted")
@@ -614,7 +642,8 @@ def evaluate_pump_case(case) -> Tuple[List[Dict[str, Any]], Any, bool]:
             for a, beh in ((w.a1, beh1), (w.a2, beh2)):
                 if not a.called:
                     continue
-                if (beh, k) in (("take_later1", 1), ("take_later2", 2), ("take_later_twice", 1)) and a.took and not a.released:
+                if (beh, k) in (("take_later1", 1), ("take_later2", 2), ("take_later_twice", 1), ("take_later_preempt", 1)) \
+                        and a.took and not a.released:
                     was = owned()
                     a.release()
                     account(f"release by {a.name} after {k} pump(s)", 1 if (a.released and was) else 0)
@@ -634,11 +663,21 @@ def evaluate_pump_case(case) -> Tuple[List[Dict[str, Any]], Any, bool]:
                     account(f"second release by {a.name}", 0)
                     if any(x == "resumed-again" for _n, x in w.board):
                         bad("second-resume-accepted", f"deferred second resume() did not assert (board {w.board})")
-                elif beh == "resume_preempt" and k == 1 and a.released:
+                elif (beh, k) in (("resume_preempt", 1), ("take_resume_preempt", 1), ("take_later_preempt", 2)) and a.released:
+                    legit = any(x == "resumed" for _n, x in w.board)      # released, hence nobody's: preempt() is allowed
                     a.preempt()
-                    n_pre = len([i for i in account(f"preempt by {a.name}", 0) if i[0] == "preempt" and i[1] == fid])
-                    if "preempted" in a.log and n_pre != 1:
-                        bad("preempt-item", f"preempt() queued {n_pre} preempt items")
+                    pre = [i for i in account(f"preempt by {a.name}", 0) if i[0] == "preempt" and i[1] == fid]
+                    if legit and "preempt-refused" in a.log:
+                        bad("preempt-refused", f"HippoHTTPFlow.preempt() refused a flow that had been released (board {w.board})")
+                    elif "preempted" in a.log and len(pre) != 1:
+                        bad("preempt-item", f"HippoHTTPFlow.preempt() queued {len(pre)} preempt items")
+                    elif len(pre) == 1:
+                        got = HTTPFlow.from_state(pickle.loads(pickle.dumps(pre[0][2])))
+                        r = got.response
+                        if r is None or r.status_code != INJ_STATUS or r.content != INJ_BODY or r.headers.get("X-Inj") != "1" \
+                                or got.metadata.get("response_injected") is not True:
+                            bad("preempt-injected-response", f"preempt state must carry the injected {INJ_STATUS} {INJ_BODY!r}, carries "
+                                                             f"{r and (r.status_code, r.content[:40])!r} / {got.metadata.get('response_injected')!r}")
             for wt in w.waiters:
                 if k == 1 and wt.took and not wt.released:
                     was = owned()
@@ -752,6 +791,130 @@ def evaluate_wrapper_case(case) -> Tuple[List[Dict[str, Any]], Any, bool]:
             viol.append({"clause": "transfer-flag-can_stream", "site": site, "detail": f"{case}: can_stream {got.metadata.get('can_stream')!r}"})
         return viol, ("wrapper", cap_name, proxied, nostream, who, rw, mode, r.status_code if r else None), True
     finally:
+        env.close()
+
+
+# ---------------------------------------------------------------------------------------------------- copy + replay
+def evaluate_mirror_case(case) -> Tuple[List[Dict[str, Any]], Any, bool]:
+    """case = ("mirror", event, kind, mode): both ends of the queue pair are real.
+
+    An addon hook copies the intercepted flow and (mode copy_replay) puts ("replay", None, copy state) on the to-proxy queue while
+    the original is still intercepted.  The real ``_pump_callbacks`` coroutine of the mitmproxy-side addon consumes the
+    to-proxy queue (mitmproxy's ``replay.client`` command is stubbed: it runs the replayed flow through the addon's request
+    hook, which is what a client replay does); the main side keeps pumping whatever reaches the from-proxy queue.
+    Oracle: every flow object the proxy side intercepted is resumed exactly once per interception; a copy has a fresh id."""
+    _, event, kind, mode = case
+    w = World()
+    env = w.env
+    loop = env.loop
+    si, ri = 1, 1
+    viol: List[Dict[str, Any]] = []
+    site = f"IPCInterceptionAddon.flows[{mode} in {event} hook]"
+    intercepted: Dict[int, int] = {}      # id(flow object) -> times handed to the main process
+    resumed: Dict[int, int] = {}
+    labels: Dict[int, str] = {}
+    keep: List[HTTPFlow] = []
+
+    def watch(f: HTTPFlow, label: str):
+        keep.append(f)
+        labels[id(f)] = label
+        intercepted.setdefault(id(f), 0)
+        resumed.setdefault(id(f), 0)
+        real = f.resume
+
+        def counted(_k=id(f), _real=real, _f=f):
+            if _f.intercepted:
+                resumed[_k] += 1
+            return _real()
+        f.resume = counted
+
+    class Commands:
+        @staticmethod
+        def call(name, flows):
+            assert name == "replay.client", name
+            for f in flows:
+                f.is_replay = "request"
+                f.response = None
+                watch(f, "replayed-copy")
+                intercepted[id(f)] += 1
+                env.mitm.request(f)
+
+    class Master:
+        commands = Commands
+
+        @staticmethod
+        def shutdown():
+            pass
+
+    had_master = hasattr(mitmproxy.ctx, "master")
+    old_master = getattr(mitmproxy.ctx, "master", None)
+    mitmproxy.ctx.master = Master
+    try:
+        fid = "mirror-orig"
+        url, method, headers, content = w.request_parts(kind, si, ri, "plain", "valid")
+        orig = env.new_flow(url, method, content, headers, fid=fid)
+        watch(orig, "original")
+        task = loop.create_task(env.mitm._pump_callbacks())
+
+        def settle():
+            """Let both sides run until both queues are empty."""
+            for _ in range(12):
+                loop.run_ready()
+                loop.advance(0.003)                     # wakes _pump_callbacks, which drains the to-proxy queue
+                if env.ctx.from_proxy_queue.empty():
+                    if env.ctx.to_proxy_queue.empty():
+                        return
+                    continue
+                env.pump()
+            raise HarnessError(f"{case}: the two pumps did not settle")
+
+        if event == "request":
+            w.a1.arm(fid, "request", mode, False)
+        intercepted[id(orig)] += 1
+        env.mitm_request(orig)
+        settle()
+        if event == "response":
+            if orig.response is None:
+                st, rc, rh = w.response_parts(kind, si, ri, "valid", 200)
+                env.set_response(orig, st, rc, rh)
+            w.a1.arm(fid, "response", mode, False)
+            before = env.ctx.from_proxy_queue.n_put
+            env.mitm.responseheaders(orig)
+            env.mitm.response(orig)
+            if env.ctx.from_proxy_queue.n_put > before:
+                intercepted[id(orig)] += 1
+            settle()
+        env.ctx.shutdown_signal.set()
+        loop.advance(0.01)
+        if not task.done():
+            task.cancel()
+            loop.run_ready()
+            viol.append({"clause": "proxy-pump-stuck", "site": site, "detail": f"{case}: _pump_callbacks did not stop"})
+        elif task.exception() is not None:
+            viol.append({"clause": "proxy-pump-died", "site": site, "detail": f"{case}: {task.exception()!r}"})
+        for o, d in w.a1.copies:
+            if o == d:
+                viol.append({"clause": "copy-shares-id", "site": "HippoHTTPFlow.copy",
+                             "detail": f"{case}: copy() of flow {o!r} kept the id of the flow that is still in flight"})
+        for k, n in intercepted.items():
+            if resumed[k] != n:
+                viol.append({"clause": "proxy-resume-once", "site": site,
+                             "detail": f"{case}: the {labels[k]} flow was intercepted {n}x and resumed {resumed[k]}x "
+                                       f"(all flows: {[(labels[x], intercepted[x], resumed[x]) for x in intercepted]})"})
+            f = next(x for x in keep if id(x) == k)
+            if f.intercepted:
+                viol.append({"clause": "proxy-flow-left-intercepted", "site": site,
+                             "detail": f"{case}: the {labels[k]} flow is still intercepted when both queues are empty"})
+        outcome = ("mirror", event, kind, mode, tuple(w.a1.log), tuple(sorted((labels[k], intercepted[k], resumed[k]) for k in intercepted)))
+        return viol, outcome, bool(w.a1.copies)
+    finally:
+        if had_master:
+            mitmproxy.ctx.master = old_master
+        else:
+            try:
+                del mitmproxy.ctx.master
+            except AttributeError:
+                pass
         env.close()
 
 
@@ -1076,6 +1239,13 @@ def cases_for(tier: str):
         for fl in core:
             for fa in single[1:]:
                 cases.append(("pump",) + fl + (fa, b, "ignore"))
+    # stage 1d: preempt() after the flow had been taken and released
+    for b in PREEMPT_AFTER_TAKE:
+        for fl in flows:
+            cases.append(("pump",) + fl + ((), b, "ignore"))
+        for fl in core:
+            for fa in single[1:]:
+                cases.append(("pump",) + fl + (fa, b, "ignore"))
     # stage 1c: owners / observers that get the flow through wait_for() / subscribe_async() on the session / region handler
     for fl in flows:
         if fl[0] != "response":
@@ -1113,6 +1283,11 @@ def cases_for(tier: str):
             for ri in (0, 1):
                 for flag in FLAGS:
                     cases.append(("twophase", kind, si, ri, flag))
+    # copy + replay with the real proxy-side pump in the loop
+    for ev_ in ("request", "response"):
+        for kind in KINDS:
+            for mode in ("copy_replay", "copy_only"):
+                cases.append(("mirror", ev_, kind, mode))
     # wrapper caps: an addon's rewrite must survive the event manager's own redirect
     for cap_name in WRAPPED_CAPS:
         for proxied in (False, True):
@@ -1145,6 +1320,8 @@ def _evaluate(case) -> Tuple[List[Dict[str, Any]], Any, bool]:
         return evaluate_proxy_case(case)
     if stage == "wrapper":
         return evaluate_wrapper_case(case)
+    if stage == "mirror":
+        return evaluate_mirror_case(case)
     raise ValueError(stage)
 
 
